@@ -126,3 +126,43 @@ def run(ctx, F, rule="E-CARRY"):
             n += check_fn(ctx, F, rule, fid)
     ctx.anchor(rule, MOD + " functions with a carry/borrow chain", fns > 0)
     return fns, n
+
+
+RAW_VIEW_USERS = {
+    # function (nice-name suffix) -> why the unnormalised digit array (possibly with a most-significant zero digit) is fine here
+    "Natural>::bit_width": "bit_width() skips leading zero digits itself",
+    "<u128 as std::convert::TryFrom>::try_from": "reads the low digits by index and checks the rest for zero",
+}
+
+
+def check_raw_view(ctx, F, rule="E-NUM.rawview"):
+    """`Natural::mantissa()` strips the most-significant zero digit that `Add` may leave behind (its length estimate is one
+    bit generous); `mantissa_raw()` does not.  Every consumer that looks at the *most significant* digit (comparison,
+    conversion to f64, formatting, hashing, equality) must therefore go through `mantissa()`.  Who-may-call: the raw
+    view is read only by the reviewed functions."""
+    import re as _re
+    from lib import cfg as _cfg
+    n = 0
+    seen = set()
+    for fid, m in sorted(F.mir.items()):
+        if not fid.startswith("oxidd_core::util::num::"):
+            continue
+        B = _cfg.Body(m)
+        raw = [i for i, t in B.calls() if _re.search(r"Natural>?::mantissa_raw$|::mantissa_raw$", _cfg.callee_name(t) or "")]
+        if not raw:
+            continue
+        nice = F.nice(fid)
+        key = next((k for k in RAW_VIEW_USERS if nice.endswith(k)), None)
+        n += 1
+        if key:
+            seen.add(key)
+        ctx.ob(rule, "%s:%s" % (rule, key or nice), key is not None,
+               "%s (%s): %s" % (nice, F.where(fid),
+                                "reviewed user of the unnormalised digit view: " + RAW_VIEW_USERS[key] if key else
+                                "reads Natural::mantissa_raw(), the digit array that may carry a most-significant zero digit after "
+                                "an addition; it is not one of the reviewed users -- a consumer of the top digit must use "
+                                "mantissa()"))
+    for k in RAW_VIEW_USERS:
+        ctx.ob(rule + ".table", "%s.table:%s" % (rule, k), k in seen, "reviewed raw-view user %s %s" %
+               (k, "found" if k in seen else "no longer calls mantissa_raw: update the table"), nontrivial=False)
+    return n
